@@ -264,3 +264,41 @@ Theorem tile_wwtl_writes_wtml_last_on_the_tiling_builder :
     call_recv e2 = Some ww_builder.
 Proof. exact wwtl_order. Qed.
 Print Assumptions tile_wwtl_writes_wtml_last_on_the_tiling_builder.
+
+(* ------------------------------------------------------------------ *)
+(* class Builder (toasty/builder.py), straight-line methods, tied by TRANSLATION:
+   Generated/BuilderSrc.v is __init__, set_name, prepare_study_tiling, execute_study_tiling and
+   tile_base_as_study as harness/py2coq.py (MethodTranslator) reads them from /repo's working tree on
+   every build -- attribute stores and calls, in order -- and they ARE the hand-written scripts of
+   Model/BuilderScript.v, in which the place written into the WTML shows the builder's own image set,
+   the URL is the pyramid's path scheme followed by "." + its default format (the naming theorems
+   above say where the files are), and set_name names image set and place alike.
+   Proofs in Proofs/BuilderSrcP.v. *)
+From Toasty Require Import Model.BuilderScript Generated.BuilderSrc Proofs.BuilderSrcP.
+Local Open Scope list_scope.
+
+Theorem src_builder_methods_are_model :
+  src_Builder_init = TDone builder_init_model /\
+  src_Builder_set_name = TDone builder_set_name_model /\
+  src_Builder_prepare_study_tiling = TDone builder_prepare_study_tiling_model /\
+  src_Builder_execute_study_tiling = TDone builder_execute_study_tiling_model /\
+  src_Builder_tile_base_as_study = TDone builder_tile_base_as_study_model.
+Proof. exact src_builder_methods_eq. Qed.
+Print Assumptions src_builder_methods_are_model.
+
+Theorem builder_init_wires_the_description :
+  final_store is_place "foreground_image_set" builder_init_model None = Some self_imgset /\
+  final_store is_imgset "file_type" builder_init_model None
+    = Some (add_ (SStr ".") (SCallA "get_default_format" (SName "pio") [] [])) /\
+  final_store is_imgset "url" builder_init_model None
+    = Some (add_ (SCallA "get_path_scheme" (SName "pio") [] []) (SAttr "file_type" self_imgset)) /\
+  final_store is_imgset "name" builder_init_model None = final_store is_place "name" builder_init_model None.
+Proof. exact init_wires_description. Qed.
+Print Assumptions builder_init_wires_the_description.
+
+Theorem builder_set_name_names_image_set_and_place :
+  forall (before : list (sevent unit)) (a1 a2 : option (sval unit)),
+  final_store is_imgset "name" (before ++ builder_set_name_model) a1 = Some (SName "name") /\
+  final_store is_place "name" (before ++ builder_set_name_model) a2 = Some (SName "name").
+Proof. exact set_name_sets_both. Qed.
+Print Assumptions builder_set_name_names_image_set_and_place.
